@@ -555,8 +555,13 @@ pub fn predict_vs_ref_limit(net: &Net, params: &[P<f32>], x: &[f32], tol: f64, l
     let floor = trace_max(&tr);
     // a training step on integer data can send a network off towards 1e20: only trained states of ordinary magnitude
     // are judged (as in C01); the others are counted with the out-of-range cases
-    let limit = if pretrain { limit.min(1.0e4) } else { limit };
-    if floor > limit {
+    let limit = if pretrain { limit.min(1.0e3) } else { limit };
+    // ... "ordinary magnitude" as in C01: parameters and pre-activations below 1e3 as well (multiplicative coupling can
+    // leave a trained block with huge weights; an unsaturated output is then the difference of huge terms)
+    let wild = pretrain
+        && (p64.iter().flat_map(|p| p.flat()).any(|v| !v.is_finite() || v.abs() >= 1.0e3)
+            || tr.layers.iter().any(|l| l.pre.iter().chain(l.inner.iter().flat_map(|i| i.pre.iter())).any(|v| !v.is_finite() || v.abs() >= 1.0e3)));
+    if floor > limit || wild {
         // repeated multiplication / many repetitions: the exact value is outside what f32 can hold
         return Ok(PredictOk { exact: false, nontrivial: false, lib_out: v, overflow: true });
     }
